@@ -31,20 +31,25 @@ Definition unit_square : list (V3 float) := [p2 0 0; p2 1 0; p2 1 1; p2 0 1].
 Definition dummy_poly : Poly float := mkPoly loop_new [] 0 (mkV3 0 0 0).
 Definition get {A} (d : A) (r : res A) : A := match r with Ok a => a | _ => d end.
 
-(** W1: unit square with a triangular hole: the ear clipped at the bridge is REVERSED (it covers the hole) *)
+(** W1: unit square with a triangular hole.  Before fix 4bb2ed8 (ear test = "interior chord" only) the ear clipped at the
+    bridge vertex was REVERSED (it covered the hole).  from_polygon now clips only convex, empty corners: 7 = |L| - 2
+    triangles, none reversed, areas summing to the polygon's net area. *)
 Definition w1_poly : Poly float := get dummy_poly (build_poly unit_square [[p2 0.3 0.3; p2 0.45 0.6; p2 0.6 0.3]]).
 Definition reversed_wrt (n : V3 float) (t : TriPiece float) : bool := vdot (tnormal (tp_tri t)) n <? 0.
-Lemma w1_reversed_triangle :
-  exists M, from_polygon w1_poly = Ok M /\ existsb (reversed_wrt (pnormal w1_poly)) (tris M) = true /\ length (pinner w1_poly) = 1%nat.
-Proof. eexists. split; [vm_compute; reflexivity|]. split; vm_compute; reflexivity. Qed.
+Lemma w1_now_positive :
+  exists M, from_polygon w1_poly = Ok M /\ existsb (reversed_wrt (pnormal w1_poly)) (tris M) = false /\ length (tris M) = 7%nat /\
+            length (pinner w1_poly) = 1%nat.
+Proof. eexists. split; [vm_compute; reflexivity|]. repeat split; vm_compute; reflexivity. Qed.
 
-(** W2: an 8-vertex rectilinear outline: the periodic sanitize drops a vertex that has become collinear, so
-    only 5 = |L| - 3 triangles are produced *)
+(** W2: an 8-vertex rectilinear outline.  With the pinned ear test the periodic sanitize met a vertex that had become
+    collinear and dropped it, so only 5 = |L| - 3 triangles were produced (a T-junction); with the ear test of fix
+    4bb2ed8 the clipping order differs and the run yields the 6 = |L| - 2 triangles.  (That sanitize CAN drop a
+    vertex is unchanged: the exact count is a theorem only for sanitize-stable runs, Properties/C01_tiling.v.) *)
 Definition w2_poly : Poly float :=
   get dummy_poly (build_poly [p2 2 5; p2 2 3; p2 5 3; p2 5 0; p2 0 0; p2 0 7; p2 1 7; p2 1 5] []).
-Lemma w2_fewer_triangles :
+Lemma w2_triangle_count :
   exists M Lm, from_polygon w2_poly = Ok M /\ poly_get_closed_loop w2_poly = Ok Lm /\ snd (loop_close Lm) = Ok tt /\
-    llen (fst (loop_close Lm)) = 8%nat /\ length (tris M) = 5%nat.
+    llen (fst (loop_close Lm)) = 8%nat /\ length (tris M) = 6%nat.
 Proof. eexists. eexists. split; [vm_compute; reflexivity|]. split; [vm_compute; reflexivity|]. repeat split; vm_compute; reflexivity. Qed.
 
 (** W3: mesh_polygon on a plain triangle.  Before fix 361bbb9 it panicked ("... don't share a segment", site 64):
@@ -67,13 +72,12 @@ Proof. eexists. split; vm_compute; reflexivity. Qed.
 
 (** W5: unit square with a pentagonal hole (well conditioned).  Before fix df28df6 (Loop3D::push duplicated the
     last-but-one vertex when the outline went straight back to it, the normal of (a, b, b) became NaN) from_polygon
-    returned Err "non-coplanar" (class 31) here.  It now returns Ok -- but with 5 triangles instead of |L| - 2 = 9:
-    the first ear (0,0) (1,0) (1,1) is clipped at the FIRST occurrence of the bridge vertex (1,1) although the chord
-    (0,0)-(1,1) is a diagonal only at its second occurrence, so the ear swallows the hole (known finding
-    C01:orientation:holes, the same class as W1). *)
+    returned Err "non-coplanar" (class 31) here; after that fix alone it returned Ok with 5 triangles instead of
+    |L| - 2 = 9 (the first ear (0,0) (1,0) (1,1), clipped at the wrong occurrence of the bridge vertex (1,1), swallowed
+    the hole).  With the ear test of fix 4bb2ed8 it returns the 9 triangles. *)
 Definition w5_poly : Poly float :=
   get dummy_poly (build_poly unit_square [[p2 0.754 0.584; p2 0.637 0.577; p2 0.607 0.464; p2 0.706 0.4; p2 0.797 0.475]]).
-Lemma w5_from_polygon_ok : exists M, from_polygon w5_poly = Ok M /\ length (tris M) = 5%nat /\ length (pinner w5_poly) = 1%nat.
+Lemma w5_from_polygon_ok : exists M, from_polygon w5_poly = Ok M /\ length (tris M) = 9%nat /\ length (pinner w5_poly) = 1%nat.
 Proof. eexists. split; [vm_compute; reflexivity|]. split; vm_compute; reflexivity. Qed.
 
 (** non-vacuity: the unit square is triangulated, and refined *)
